@@ -48,6 +48,11 @@ def check(run):
     C10.limit(R, RID='C02.P1b')
     C05.track(R, RID='C02.P2')
     C05.route(R, RID='C02.P2')
+    C05.awaitables_fresh(R, RID='C02.P1a')
+    with R.as_rule('C02.P2'):
+        C05.dfa(R)
+        C05.loop(R)
+    nosnapshot(R)
     p3(R)
     C01.alias(R, RID='C02.alias')
 
@@ -199,6 +204,47 @@ def p1(R):
     ok = len(ys) == 1 and U(ys[0].ast.value) == 'self._awaiting'
     R.ob('C02.P1c', 'parsed objects are yielded as produced', ok, 'yields in Parser.feed: %s' % [y.text() for y in ys], func=f,
          node=(ys[0].ast if ys else None), construct='feed yields')
+
+
+def nosnapshot(R):
+    """Per-connection fields that can change while a generator is suspended must be read when they are used, not
+    cached in a local before a yield (the handshake response and the first frames may arrive in one read: compression
+    is switched on while WebsocketStream.feed is suspended at `yield Response`)."""
+    for fq in ('stream.WebsocketStream.feed', 'websocket.WebSocket.feed'):
+        g = R.cfg(fq)
+        rd = ReachingDefs(g)
+        ys = g.yields()
+        bad = []
+        for n in g.live_nodes():
+            if n.kind != 'stmt' or not isinstance(n.ast, ast.Assign) or len(n.ast.targets) != 1 \
+                    or not isinstance(n.ast.targets[0], ast.Name):
+                continue
+            v = n.ast.value
+            if not (isinstance(v, ast.Attribute) and U(v).startswith('self.')):
+                continue
+            fld = v.attr
+            # fields written by other methods of the class (they can change across a suspension)
+            cls = g.ctx.recv
+            writers = [c for (c, s_, t, val) in stores_in_package(R, fld) if c.func.name != '__init__'
+                       and any(x == 'inst:' + cls for x in R.types.expr(t.value, c))]
+            if not writers:
+                continue
+            name = n.ast.targets[0].id
+            for u in g.live_nodes():
+                if u is n or name not in {x.id for e in (u.exprs or []) for x in walk_no_nested(e) if isinstance(x, ast.Name)
+                                           and isinstance(x.ctx, ast.Load)}:
+                    continue
+                if n not in rd.defs_at(u, name):
+                    continue
+                # a yield between the snapshot and the use?
+                between = [y for y in ys if y in g.succ_reach(n, avoid={u}) and u in g.succ_reach(y)]
+                if between:
+                    bad.append((n, u, fld))
+        R.ob('C02.P3', '%s reads mutable connection fields at the point of use' % fq.rsplit('.', 2)[-2], not bad,
+             '`%s` snapshots self.%s before a yield and uses it afterwards (`%s`): the field can change while the generator '
+             'is suspended, so behaviour depends on whether later bytes arrived in the same read' % (
+                 bad[0][0].text() if bad else '', bad[0][2] if bad else '', bad[0][1].text()[:50] if bad else ''),
+             func=fq, node=(bad[0][0].ast if bad else None))
 
 
 def p3(R):
